@@ -2,6 +2,8 @@
 """Print the prompt handed to a fresh sub-agent that seeds a property-breaking change (only the property text + a scratch clone)."""
 import json, sys
 pid, workdir = sys.argv[1], sys.argv[2]
+import os
+stable = os.environ.get("STABLE_TESTS", os.path.join(os.path.dirname(workdir.rstrip("/")), "stable_tests.txt"))
 variant = sys.argv[3] if len(sys.argv) > 3 else ""
 if variant.startswith("@"):
     variant = json.load(open(variant[1:]))[pid]
@@ -17,7 +19,7 @@ Semantic property {pid} — "{p['title']}":
 
 Your job: make ONE small, realistic source change under {workdir}/src (the kind of slip a maintainer could make in a refactor or 'optimisation'; no new dependencies, no changes to tests, no cfg tricks, no randomness) such that
   (a) the crate still compiles without new warnings-as-errors,
-  (b) every test listed in /verif/tools/stable_tests.txt still passes (run: `cd {workdir} && cargo test --workspace --no-fail-fast --offline 2>&1 | tail -40`; six git-dependent tests `core::git::tests::test_get_git_*_ok*` and `app::checkpoint::tests::test_handle_checkpoint_update_with_pending_changes` fail in this sandbox before and after — ignore those; `core::server` tests may flake on a port clash when run in parallel, re-run them alone), and
+  (b) every test listed in {stable} still passes (run: `cd {workdir} && cargo test --workspace --no-fail-fast --offline 2>&1 | tail -40`; `core::server` tests may flake on a port clash when run in parallel, re-run them alone), and
   (c) the property above is now violated — but only for something specific: an unusual input or configuration shape, a particular interleaving or timing, a crash/fault at a particular point, a multi-step sequence of operations, or two cooperating code sites that each look fine alone. NOT something ordinary use or the existing tests would expose at once.
 {variant}
 Then write a demonstration: a new Rust test (preferably a `#[cfg(test)] mod` in a NEW file under {workdir}/src that you wire in with a single `#[cfg(test)] mod ...;` line, or a new file under {workdir}/tests/) that FAILS with your change and PASSES without it. Verify both directions yourself: run the demo with the change (fails), `git stash` only the src change (keep the demo) and run again (passes), then restore the change.
